@@ -184,6 +184,7 @@ pub fn run_traced(c: &StreamCase, full_out: Option<&[u8]>, size_done: bool) -> T
                 if flush_tick % 3 == 0 {
                     let before = sink.len();
                     let _ = s.flush();
+                    events.push(json!({"ev": "Flush", "before": before, "after": sink.len()}));
                     if sink.len() != before {
                         problems.push("flush delivered bytes to the sink".into());
                     }
